@@ -650,9 +650,14 @@ def d3_table(ctx):
         pt = tables.pratt_tables(ctx)
         of = tables.operator_from_token(ctx)['map']
         bad = [t for t in sorted(pt['infix_tokens'] | pt['prefix_tokens']) if str(of.get(t, '<')).startswith('<')]
-        callers = _callers(F, "<ast::Operator as core::convert::From<lexer::Token<'_>>>::from")
-        ok = not bad and callers == ["parser::Parser::<'a>::parse_operator"] and \
-            set(_callers(F, "parser::Parser::<'a>::parse_operator")) <= {"parser::Parser::<'a>::parse_infix_expr", "parser::Parser::<'a>::parse_prefix_expr"}
+        # the conversion is reached only from the infix / prefix parsers (directly, or through the small parse_operator wrapper),
+        # which parse_expr enters only for the tokens of its dispatch tables
+        allowed = {"parser::Parser::<'a>::parse_infix_expr", "parser::Parser::<'a>::parse_prefix_expr"}
+        callers = set(_callers(F, "<ast::Operator as core::convert::From<lexer::Token<'_>>>::from"))
+        wrapper = "parser::Parser::<'a>::parse_operator"
+        if wrapper in callers:
+            callers = (callers - {wrapper}) | set(_callers(F, wrapper))
+        ok = not bad and bool(callers) and callers <= allowed
         return ok, 'Operator::from is total on the tokens the parser hands it (%s)' % (bad or 'all mapped')
 
     def compile_operator_domain(ctx, site):
